@@ -514,7 +514,7 @@ def c14(tier, seed):
     run.extra["negative_controls"] = neg
     # Mode B/C: scenarios run by the -race harness, one process each
     cases, n = run.generate("Gen_Conc", "Gen_Conc.cfg", mode="cases", size=2 if thorough else 1)
-    passes = 3 if thorough else 1
+    passes = 2 if thorough else 1
     base = 0
     for ps in range(passes):
         recs = vf.read_ndjson(cases)
